@@ -59,7 +59,8 @@ PROBES = ["turn_change", "restore_with_progress", "extra_ball", "early_end_game"
           "dispatch_live", "dispatch_transient", "dispatch_dead_in_game", "dispatch_no_game", "hook_post",
           "hold_window", "lb_complete", "lb_timeout", "dl_fired", "timer_tick", "m2_restart_next_ball",
           "histories_differ", "may_applied", "may_skipped", "op_on_timer_deadline", "mode_started_while_ball_ending",
-          "sq_step", "sq_step_after_game", "sq_pending_at_ball_end", "sg2_rotate_enabled", "sg2_rotate_disabled"]
+          "sq_step", "sq_step_after_game", "sq_pending_at_ball_end", "sg2_rotate_enabled", "sg2_rotate_disabled",
+          "timer_resume", "timer_pause_pending_at_unload", "mode_stopping_at_ball_ending"]
 REAL = ["mpf.core.player.Player", "mpf.modes.game.code.game.Game", "mpf.core.mode.Mode / ModeController",
         "mpf.devices.logic_blocks (Counter, Accrual, Sequence)", "mpf.devices.shot / shot_group / shot_profile",
         "mpf.devices.achievement", "mpf.devices.timer", "mpf.core.enable_disable_mixin",
@@ -109,7 +110,7 @@ FAMILIES = [
     ("ach", 3, ["ev_ach1_start", "ev_ach1_stop", "ev_ach1_complete", "ev_ach1_disable", "ev_ach1_enable", "ev_ach1_reset",
                 "ev_ach1_select", "ev_ach1_unselect", "ev_ach2_start", "ev_ach2_stop", "ev_ach2_complete",
                 "ev_ach2_enable", "ev_ach2_enable", "ev_ach2_disable"]),
-    ("timer", 2, ["ev_t1_start", "ev_t1_start", "ev_t1_stop", "ev_t1_add", "ev_t1_jump"]),
+    ("timer", 2, ["ev_t1_start", "ev_t1_start", "ev_t1_stop", "ev_t1_add", "ev_t1_jump", "ev_t1_pause", "ev_t1_pause"]),
     ("vars", 4, ["ev_score", "ev_score", "ev_float", "ev_str1", "ev_str2", "ev_int_set", "ev_int_add", "ev_new_var", "ev_eb", "ev_gift"]),
     ("m2", 3, ["ev_m2_start", "ev_m2_start", "ev_m2_stop", "ev_c_m2", "ev_c_m2", "ev_m2_str", "ev_score"]),
 ]
@@ -129,6 +130,8 @@ COMBOS = [
     ["ev_sq_30", "ev_sq_20", "ev_sq_120"],
     ["ev_sg2_rot_on", "sw:s_sh_a", "ev_sg2_rotate", "ev_sg2_rotate"],
     ["sw:s_sh_b", "ev_sg2_rotate"],
+    ["ev_t1_start", "ev_t1_pause"],
+    ["ev_t1_pause"],
 ]
 DTS = [0.0, 0.0, 0.001, 0.01, 0.05, 0.1, 0.25, 0.3, 0.7, 1.5]
 
@@ -163,7 +166,7 @@ def plan(ch, tier):
         if to:
             cfg["lb_timeout"] = {"c_up": to}
         for i, (ev, pr) in enumerate(HOLD_POINTS):
-            if ch.flag("cfg.hold%d" % i, 0.12):
+            if ch.flag("cfg.hold%d" % i, 0.25 if ev == "mode_m2_stopping" else 0.12):
                 cfg["holds"].append([ev, pr, ch.pick("cfg.hold_ms", [10, 100, 300, 1000])])
     # swarm over the workload too: a few device families get most of the events of this run
     focus = sorted(set(ch.choice("focus", len(FAMILIES)) for _ in range(3)))
@@ -206,6 +209,13 @@ def plan(ch, tier):
             ops.extend(burst)
             if ch.flag("end_game", 0.04):
                 ops.append({"op": "end_game", "when": _gen_when(ch)})
+            elif ch.flag("stop_then_drain", 0.12):
+                # a game mode whose stop was requested just before the drain (still stopping at ball_ending when its
+                # mode_<m>_stopping queue is held)
+                if ch.flag("std_start", 0.6):
+                    ops.append({"op": "ev", "name": "ev_m2_start", "when": ["rel", ch.pick("std_dt0", [0.01, 0.1])]})
+                ops.append({"op": "ev", "name": "ev_m2_stop", "when": ["rel", ch.pick("std_dt1", [0.01, 0.05, 0.1])]})
+                ops.append({"op": "drain", "when": ["rel", ch.pick("std_dt2", [0.0, 0.001, 0.01, 0.05])]})
             else:
                 ops.append({"op": "drain", "when": _gen_when(ch)})
         # a few events with no ball in play / no game
@@ -323,6 +333,8 @@ class Harness:
         self.done = False
         self.end_m2 = {}             # player -> was m2 live when this player's last ball began to end (None: unclear)
         self.m2_touch = {}           # player -> m2 start/stop events dispatched while that player was up since then
+        self.tick_complete_pending = False   # a processed tick reached end_value: timer_t1_complete follows
+        self.stopping_at_end = {}    # mode -> it was already stopping when ball_ending was dispatched
         self.posting_player = None   # Player object that is posting a player_<var> event right now
         self.prev_players = []       # Player objects of the game that ended last
         self.old_late = []           # [Player object of a finished game, points it queued after the ball end stopped waiting]
@@ -540,6 +552,11 @@ class Harness:
             # Mode.stop() clears the mode's delays right after posting this: pending delayed counts are dropped
             self.sync_dl("will_stop")
             self.dev["dl"] = []
+        elif name in ("timer_t1_started", "timer_t1_complete") and self.cur is None and self.in_load is None:
+            if name == "timer_t1_complete" and self.tick_complete_pending:
+                self.tick_complete_pending = False      # the completion of the tick that was just processed
+            else:
+                self.on_timer_resume(name)
         elif name == "c_up_timeout":
             self.on_timeout("c_up")
 
@@ -647,10 +664,29 @@ class Harness:
             emits = []
             M.t1_tick(self.x_for(num, emits))
             self.add_emits(emits)
+            if "timer_t1_complete" in emits:
+                self.tick_complete_pending = True
             ctx.probe("timer_tick")
             return
         self.bad("unjustified_change", "player variable changed outside any event of that player's turn: %s" % var,
                  "player_%s %r posted outside a stimulus dispatch and outside a mode load" % (var, kw))
+
+    def on_timer_resume(self, name):
+        """t1 started (or completed at once) outside any event dispatch: the timed resume of a pause-with-value."""
+        sim = self.sim
+        att = self.dev["attached"]["m1"]
+        pz = self.dev["t1_pause"]
+        self.ctx.log("timer_resume", name, att, pz and pz["owner"], t=sim.now)
+        self.ctx.probe("timer_resume")
+        if att is None or pz is None or pz["seq"] != self.dev["seq"]["m1"] or not sim.late_ok(pz["deadline"]):
+            self.bad("unjustified_change", "timer resumed by a pause that does not belong to this ball",
+                     "%s at %.3f outside any event: m1 is loaded for %r (load #%r), the only pending timed pause is %r - "
+                     "a resume scheduled in an earlier ball/turn (or never) started the timer"
+                     % (name, sim.now, att, self.dev["seq"]["m1"], pz))
+        emits = []
+        self.dev["t1_pause"] = None
+        M.t1_start(self.x_for(att, emits))
+        self.add_emits(emits)
 
     def on_finished_player_event(self, owner, var, kw):
         value, change = kw["value"], kw["change"]
@@ -779,6 +815,10 @@ class Harness:
             c = cls[mode]
             tgt = cur["att"][mode]
             if c == DEAD or tgt is None:
+                continue
+            if tgt != cur["pnum"]:
+                # the mode's devices are (still) loaded for somebody who is not up: nothing of this event may reach
+                # that player's state (R-transient only speaks about the player whose ball it is)
                 continue
             if len(eff) > 2:
                 tgt = eff[2]        # variable_player entry that names its player explicitly
@@ -925,6 +965,18 @@ class Harness:
                          "%s: game mode %s was started after ball_will_end; ball end did not stop it: its devices are "
                          "still loaded for player %r (mode %s) while player %r is up"
                          % (where, mn, att, self.mode_class(mn), curp))
+            if att is not None and curp is not None and att != curp and not self.late_start.get(mn):
+                # ball_ending waits for every game mode to finish stopping - also for one whose stop had been
+                # requested before the drain - so no mode can have a player's devices loaded in another player's turn
+                if self.stopping_at_end.get(mn):
+                    self.bad("binding", "%s was stopping at ball_ending and outlives the ball" % mn,
+                             "%s: game mode %s was already stopping (its mode_%s_stopping queue still held) when ball_ending "
+                             "was dispatched; the ball ended without waiting for it: its handlers are registered and its "
+                             "devices loaded for player %r (mode %s) while player %r is up"
+                             % (where, mn, mn, att, self.mode_class(mn), curp))
+                self.bad("binding", "%s still has the previous player's devices loaded after the turn changed" % mn,
+                         "%s: game mode %s has its devices loaded for player %r (mode %s) while player %r is up"
+                         % (where, mn, att, self.mode_class(mn), curp))
             if self.mode_class(mn) != LIVE:
                 continue
             att = self.dev["attached"][mn]
@@ -1057,6 +1109,12 @@ class Harness:
             if self.cfg["m2_restart"] and self.dev["attached"]["m2"] is not None:
                 ctx.probe("m2_restart_next_ball")
         elif name == "ball_ending":
+            for mn in MODES:
+                self.stopping_at_end[mn] = bool(self.modes[mn].stopping)
+                if self.stopping_at_end[mn]:
+                    ctx.probe("mode_stopping_at_ball_ending")
+            if self.dev["t1_pause"] is not None:
+                ctx.probe("timer_pause_pending_at_unload")
             if sum(self.dev["sq"].get(curp, [0, 0, 0])):
                 ctx.probe("sq_pending_at_ball_end")
             c = self.mode_class("m2")
